@@ -38,6 +38,12 @@ Proof.
   - intros H. exists a. split; [exact H|]. unfold ditem_eqb. rewrite !Nat.eqb_refl. reflexivity.
 Qed.
 
+Lemma find_node_lab A (ns : list (node A)) l : n_lab (find_node ns l) = l.
+Proof.
+  induction ns as [|n r IH]; simpl; [reflexivity|].
+  destruct (Nat.eqb (n_lab n) l) eqn:Eq; [apply Nat.eqb_eq; exact Eq | exact IH].
+Qed.
+
 (* the pairs (node, node executed next) of the nodes strictly between two positions *)
 Fixpoint steps (mid : list label) (k : label) : list (label * label) :=
   match mid with [] => [] | m :: r => (m, hd k r) :: steps r k end.
@@ -94,7 +100,7 @@ Section LvReflect.
     unfold lv_sound. intros H I.
     apply andb_true_iff in H; destruct H as [H Hn]. apply andb_true_iff in H; destruct H as [H He].
     apply andb_true_iff in H; destruct H as [H Hx]. apply andb_true_iff in H; destruct H as [Hc H0].
-    unfold closed_bwd in Hc. rewrite forallb_forall in Hc, Hx, He, Hn.
+    unfold closed_bwd in Hc. unfold lv_sound_edges in He. rewrite forallb_forall in Hc, Hx, He, Hn.
     apply negb_true_iff in H0.
     split; [constructor|].
     - intros n m Hin Rm. specialize (Hc (n, m) (I _ Hin)). simpl in Hc. unfold lR in *.
@@ -156,7 +162,7 @@ Section RdReflect.
     unfold rd_sound. intros H I.
     apply andb_true_iff in H; destruct H as [H Hn]. apply andb_true_iff in H; destruct H as [H He].
     apply andb_true_iff in H; destruct H as [H Hne]. apply andb_true_iff in H; destruct H as [Hc Hent].
-    unfold closed_fwd in Hc. rewrite forallb_forall in Hc, Hne, He, Hn.
+    unfold closed_fwd in Hc. unfold rd_sound_edges in He. rewrite forallb_forall in Hc, Hne, He, Hn.
     assert (NE : forall n m, In (n, m) E -> n <> EXIT).
     { intros n m Hin. specialize (Hne _ Hin). simpl in Hne. apply negb_true_iff in Hne.
       apply Nat.eqb_neq in Hne. exact Hne. }
@@ -171,7 +177,8 @@ Section RdReflect.
       rewrite forallb_forall in He. right. apply He. apply memd_In. exact O.
     - intros n a [Rn|Rn] [G1 G2]; [left; exact Rn|]. right. apply memn_In in Rn. specialize (Hn n Rn).
       unfold rd_sound_node in Hn. apply andb_true_iff in Hn. destruct Hn as [Hn _].
-      rewrite forallb_forall in Hn. specialize (Hn _ G2). destruct a as [x l]. simpl in *. subst l. exact Hn.
+      rewrite forallb_forall in Hn. specialize (Hn _ G2). destruct a as [x l]. simpl in *. subst l.
+      rewrite find_node_lab in Hn. exact Hn.
     - intros n a [Rn|Rn] Ia NK; [left; exact Rn|]. destruct Ia as [Ia|Ia]; [left; exact Ia|].
       right. apply memn_In in Rn. specialize (Hn n Rn).
       unfold rd_sound_node in Hn. apply andb_true_iff in Hn. destruct Hn as [_ Hn].
